@@ -9,7 +9,7 @@
      tree_encs_ok t      (bool) the encoding of the main header, of every change, file and content section is absent
                          or an ASCII str that is a catalogue spelling of one of the ten modelled codecs ([enc_okb],
                          = C01's [enc_ok], C05_enc_okb)
-     tree_indents_ok t   (bool) every preamble indent is absent or an int >= 0 ([typed_tree] alone also admits negative
+     tree_indents_ok t   (bool) every preamble indent is absent or an int >= 0 ([typed_tree] alone also allows negative
                          ints and strings, which the property's domain excludes)
      dom_write t = Ok b  the tree serialises
      tree_oracle_ok      the json.loads oracle returns j for (dumps j ++ "\n"), j the dict of each metadata section
@@ -50,10 +50,7 @@ Print Assumptions C05_view_of_record.
 Theorem C05_views_of_records : forall enc0 ver s0 cs,
   writer_init enc0 ver = (s0, Ok tt) -> enc_ok enc0 -> Forall call_good cs -> accepted s0 cs ->
   map rec_view (main_record enc0 ver :: expected_records s0 1 cs) = main_view enc0 ver :: expected_views s0 AtMain cs.
-Proof.
-  intros enc0 ver s0 cs Hi He Hg Ha. cbn [map]. rewrite (DomCompose.main_view_of_record _ _ _ Hi He). f_equal.
-  apply DomCompose.views_of_records; [eapply DomCompose.lvl_ok_init; exact Hi | exact Hg | exact Ha].
-Qed.
+Proof. exact DomCompose.views_of_records_main. Qed.
 Print Assumptions C05_views_of_records.
 
 (* ---- the calls of a tree are in C01's argument domain ---- *)
@@ -78,6 +75,12 @@ Theorem C05_tree_calls_good : forall t cs s, tree_encs_ok t = true -> tree_inden
   tree_calls t = Ok cs -> accepted s cs -> Forall call_good cs.
 Proof. exact DomCompose.tree_calls_good. Qed.
 Print Assumptions C05_tree_calls_good.
+
+(* without running the writer, when the declared line_endings are legal as well ([tree_les_ok], decidable) *)
+Theorem C05_tree_calls_good_static : forall t cs, tree_encs_ok t = true -> tree_indents_ok t = true ->
+  tree_les_ok t = true -> tree_calls t = Ok cs -> Forall call_good cs.
+Proof. exact DomCompose.tree_calls_good_static. Qed.
+Print Assumptions C05_tree_calls_good_static.
 
 (* what [tree_encs_ok] / [tree_indents_ok] are *)
 Theorem C05_tree_encs_ok_def : forall t,
